@@ -12,6 +12,7 @@ import LfsModel.RedirectModel
 import LfsModel.Download
 import LfsModel.TQTrace
 import LfsModel.Backoff
+import LfsModel.FilterProcess
 import LfsModel.Gen
 open Lfs
 
@@ -254,6 +255,27 @@ def c15 : List String → String
     | _, _ => "bad-op"
   | _ => "bad-op"
 
+def showStatus : FP.Status → String | .success => "success" | .delayed => "delayed" | .error => "error"
+def showResp (marker : Bytes) (markerName : String) (r : FP.Resp) : String :=
+  let c := if r.content == marker && !marker.isEmpty then markerName else shaOrDash r.content
+  s!"status={showStatus r.status} content={c} final={match r.final with | some f => showStatus f | none => "-"}"
+
+def c14 : List String → String
+  | ["clean", d] => match unhex d with
+    | some data => showResp [] "" (FP.answerClean Sha256.hexDigest ⟨[data], true⟩ []).1
+    | none => "bad-op"
+  | ["smudge", cd, wh, skip, objsha, d] =>
+    let wh? : Option FP.Where := if wh == "local" then some .local else if wh == "server" then some .server
+      else if wh == "missing" then some .missing else if wh == "failing" then some .failing else if wh == "none" then some .local else none
+    match wh?, unhex d with
+    | some w, some data =>
+      let marker : Bytes := objsha.toUTF8.toList
+      (match FP.answerSmudge (cd == "1") (skip == "1") w marker ⟨[data], true⟩ with
+       | some r => showResp marker objsha r
+       | none => "died")
+    | _, _ => "bad-op"
+  | _ => "bad-op"
+
 def answer (line : String) : String :=
   match line.splitOn " " with
   | "C07" :: rest => c07 rest
@@ -263,6 +285,7 @@ def answer (line : String) : String :=
   | "C10" :: rest => c10 rest
   | "C02" :: rest => c02 rest
   | "TQ" :: rest => tqTrace rest
+  | "C14" :: rest => c14 rest
   | "C15" :: rest => c15 rest
   | _ => "bad-op"
 
